@@ -37,7 +37,8 @@ class HarnessError(Exception):
     """The harness itself is inconsistent (oracle cross-check failed, worker crashed...). Exit status 2, never a pass."""
 
 
-class CaseTimeout(Exception):
+class CaseTimeout(BaseException):
+    """raised by the watchdog; a BaseException so that `except Exception` inside the code under test cannot swallow it"""
     pass
 
 
